@@ -49,6 +49,8 @@ class Case:
 
 
 NAMES = {}
+# calls whose result legitimately depends on their place in the stream (snapshots taken around a history)
+ORDER_SENSITIVE = {"history_probe"}
 
 
 def agree(case, impl: str, model: str) -> bool:
@@ -1439,6 +1441,9 @@ def c07_streams(ctx):
                 b = code + a
                 iban = "DE" + iso_digits("DE", b) + b
                 yield Case("corr", "iban_new", [enc(iban), "0", "1"], "DE-api-" + ("impl" if "DE:" + algo in ctx.facts["algorithms"] else "unimpl"), True)
+                if ctx.rng.random() < 0.3:
+                    yield Case("corr", "iban_new_after", [enc(iban), "0", "1"], "DE-api-after-lenient", True)
+                    yield Case("corr", "iban_validate_after", [enc(iban), "1"], "DE-api-after-lenient", True)
     for _ in range(10 if ctx.quick else 200):
         b = "".join(rng.choice(DIGITS) for _ in range(18))
         iban = "DE" + iso_digits("DE", b) + b
